@@ -489,7 +489,11 @@ fn check_on_thread(case: &Case, obs: &mut Obs, thread_name: Option<&str>) -> Cas
                 .collect();
             let mut with_late_entry = want_mdc.clone();
             with_late_entry.insert(LATE_MDC.0.to_string(), LATE_MDC.1.to_string());
-            ensure!((got == want_mdc && m.len() == want_mdc.len()) || (late && got == with_late_entry && m.len() == 1), "C12:field:mdc", "mdc is {:?}, expected {:?}", m, want_mdc);
+            // (a message piece that inserts the late entry while being formatted may also come from a generator or a
+            // fuzzer that found the marker: what counts is whether the record that was encoded contains it)
+            let has_late = rec.msg.iter().any(|p| p == LATE_MDC_PIECE);
+            let _ = late;
+            ensure!((got == want_mdc && m.len() == want_mdc.len()) || (has_late && got == with_late_entry && m.len() == with_late_entry.len()), "C12:field:mdc", "mdc is {:?}, expected {:?}", m, want_mdc);
         }
         other => return fail("C12:field:mdc", format!("mdc is {:?}", other)),
     }
